@@ -200,12 +200,44 @@ def build(extra_rewrites=None, lock_overlay=False, buffer_min=None, quiet=True, 
             p = os.path.join(src, rel)
             text = open(p).read()
             if text.count(old) < 1:
-                raise Inconclusive("%s: lock import line not found" % rel)
+                continue  # the import line was edited: the generic pass below takes care of it
             # first occurrence = the module's own import; for a native replay build also the one of
             # its #[cfg(test)] mod, because `cargo kani playback` compiles the crate's unit tests
             open(p, "w").write(text.replace(old, new) if for_replay else text.replace(old, new, 1))
             n += 1
-        info["rewrites"]["std::sync::RwLock->instrumented lock"] = n
+        # generic pass (leaves the unchanged tree's overlay byte-identical): any other mention of std's lock
+        # types - an edited import list, a guard type named in a struct field - is redirected as well, so that
+        # a change to the locking code meets the instrumented lock instead of a type error
+        LOCKS = ("RwLock", "RwLockReadGuard", "RwLockWriteGuard")
+        def _imp(m):
+            names = [x.strip() for x in m.group(1).split(",") if x.strip()]
+            mine = [x for x in names if x in LOCKS]
+            if not mine:
+                return m.group(0)
+            rest = [x for x in names if x not in LOCKS]
+            out = ("use std::sync::{%s}; " % ", ".join(rest)) if rest else ""
+            return out + "use crate::internal::verif::vlock::{%s};" % ", ".join(mine)
+        g = 0
+        for dp, dn, fns in os.walk(src):
+            if os.path.join("internal", "verif") in dp:
+                continue
+            for fn in fns:
+                if not fn.endswith(".rs"):
+                    continue
+                fp = os.path.join(dp, fn)
+                text = open(fp).read()
+                if not for_replay and "#[cfg(test)]" in text:
+                    head, sep, tail = text.partition("#[cfg(test)]")
+                else:
+                    head, sep, tail = text, "", ""
+                new_head = re.sub(r"use std::sync::\{([^}]*)\};", _imp, head)
+                new_head = re.sub(r"\bstd::sync::(RwLockReadGuard|RwLockWriteGuard|RwLock)\b", r"crate::internal::verif::vlock::\1", new_head)
+                if new_head != head:
+                    open(fp, "w").write(new_head + sep + tail)
+                    g += 1
+        if n + g < 3:
+            raise Inconclusive("lock overlay: fewer than three files name the lock (%d + %d)" % (n, g))
+        info["rewrites"]["std::sync::RwLock->instrumented lock"] = n + g
     for (rel, old, new, count) in (extra_rewrites or []):
         p = os.path.join(src, rel)
         text = open(p).read()
